@@ -387,6 +387,11 @@ def drive(mod, tier: str, seed: int) -> int:
             else:
                 info[k] = v
 
+    if hasattr(mod, "finalize"):
+        # cross-shard oracle (e.g. the same programs on every configuration must give the same transcripts)
+        for mech, detail in mod.finalize(info, counters) or ():
+            violations.append({"mechanism": mech, "detail": short(detail, 2000), "case": None})
+
     minimum = getattr(mod, "MINIMUM", {})
     if isinstance(minimum, dict) and tier in minimum and isinstance(minimum[tier], dict):
         minimum = minimum[tier]
